@@ -130,9 +130,29 @@ def special_members(facts):
             base = "%s::%s" % (short(rect), kind)
             if kind in ("copy-ctor", "move-ctor"):
                 inits = fn.get("inits", [])
+                extra_bodies = []
                 if any(i.get("delegating") for i in inits):
-                    out.append(ob("special.complete", base + ":delegating", fn["pat"], "discharged", "delegating constructor", fn["qname"]))
-                    continue
+                    # a constructor that delegates: the fields are initialised by the target constructor with this one's
+                    # arguments (defaulted parameters appear as their default values) - judged field by field like a written list
+                    d0 = [i for i in inits if i.get("delegating")][0]
+                    ce = strip_all(d0.get("e") or {})
+                    tgt = [f2 for f2 in fns if f2.get("pat") == ce.get("cpat") and f2.get("kind") == "ctor" and f2.get("body") is not None]
+                    if not tgt or len(tgt[0].get("params", [])) != len(ce.get("args", [])) or any(i.get("delegating") for i in tgt[0].get("inits", [])):
+                        out.append(ob("special.complete", base + ":delegating", fn["pat"], "unrecognised", "delegating constructor whose target cannot be resolved", fn["qname"]))
+                        continue
+                    import copy as _copy
+                    pm = {p["d"]: a for p, a in zip(tgt[0]["params"], ce["args"])}
+
+                    def sub(n):
+                        if isinstance(n, list):
+                            return [sub(x) for x in n]
+                        if not isinstance(n, dict):
+                            return n
+                        if n.get("k") == "Ref" and n.get("d") in pm:
+                            return _copy.deepcopy(pm[n["d"]])
+                        return {k2: sub(v2) for k2, v2 in n.items()}
+                    inits = [dict(i, e=sub(i["e"])) for i in tgt[0].get("inits", []) if "field" in i]
+                    extra_bodies.append(tgt[0]["body"])
                 inited = {i["field"]: i["e"] for i in inits if "field" in i and i.get("written")}
                 body_handled = set()
                 nulled_in_other = set()
@@ -156,6 +176,10 @@ def special_members(facts):
                                 if m:
                                     swapped_with_other.add((strip(x)["f"], m))
                 walk(fn["body"], visit)
+                for b2 in extra_bodies:
+                    walk(b2, visit)
+                # counters stepped while the body copies element by element are rebuilt from the source too
+                walk(fn["body"], lambda n: body_handled.add(strip(n["e"])["f"]) if n.get("k") == "Un" and n.get("op") in ("++", "--") and is_this_member(n.get("e") or {}) else None)
                 for f in fields:
                     n = f["n"]
                     k = base + ":" + n
